@@ -235,7 +235,12 @@ def c_collect(ctx, case):
         ctx.fail("C15.collect", case, f"retargeted-raised:{type(ex).__name__}", f"{e}: {ex}")
         return
     subs = [x for x in G.walk(e) if isinstance(x, p.Sum)][:4]
-    for step, sub in enumerate([e, *subs, e]):
+    # (a sum asked for on its own, then as the numerator of a quotient, then on its own again)
+    seq = [e, *subs, p.Quotient(e, 2), e, *[p.Quotient(s_, 3) for s_ in subs[:2]], *subs[:2],
+           p.Product((2, e)), e]
+    if not isinstance(names, (list, type(None))):
+        seq = [e, *subs, e]         # (the long history for three of the nine configurations)
+    for step, sub in enumerate(seq):
         ctx.case(None)
         ctx.count("collector_reuse_calls")
         try:
